@@ -8,6 +8,7 @@ import numpy as np
 
 import common
 import gen
+import routes
 from common import Case, Issue, q, ql, il, line
 
 
@@ -205,7 +206,9 @@ def gen_thr_input(rng, i, boundary_heavy=False):
                                     rng.choice(gen.METHODS)])
     inp = {"stream": stream, "pos": pos, "neg": neg, "ep": ep, "en": en, "sc": sc, "ec": ec,
            "metric": metric, "alias": rng.random() < 0.3, "scalar": rng.random() < 0.3, "intdt": intdt, "f4dt": f4dt,
-           "prior": prior_calls is None and rng.random() < 0.1, "prior_calls": prior_calls, "dtp": dtp, "dtn": dtn}
+           "prior": prior_calls is None and rng.random() < 0.1, "prior_calls": prior_calls, "dtp": dtp, "dtn": dtn,
+           "route": routes.pick(rng, 0.12) if (dtp is None and not intdt and not f4dt) else None,
+           "rseed": rng.randint(0, 2**31 - 1)}
     n_rel = {"tpr": len(pos), "fnr": len(pos), "tnr": len(neg), "fpr": len(neg)}.get(metric, len(pos) + len(neg))
     n_all = {"tpr": len(pos) + ep, "fnr": len(pos) + ep, "tnr": len(neg) + en, "fpr": len(neg) + en}.get(
         metric, len(pos) + len(neg) + ep + en)
@@ -240,6 +243,15 @@ def build_thr(pid: str, inp, clauses) -> Case:
                    equal_class=inp["ec"])
     metric = inp["metric"]
     name = "threshold_at_" + (gen.ALIASES[metric] if inp["alias"] else metric)
+    ep_, en_, sc_, ec_ = inp["ep"], inp["en"], inp["sc"], inp["ec"]
+    routed = False
+    if inp.get("route") and not inp.get("big"):
+        # the object reaches the queries through an alternative route (harness/routes.py); the model is given the scores,
+        # easy counts and flags the derived object holds
+        r_ = routes.apply(s, inp["route"], inp.get("rseed", 0))
+        if r_ is not None and len(r_[1]) + len(r_[2]) > 0:
+            s, pos, neg, ep_, en_, sc_, ec_ = r_
+            routed = True
     fn = getattr(s, name)
     if inp.get("prior"):
         # earlier queries on the SAME object: threshold setting is a query, its result must not depend on them
@@ -254,7 +266,7 @@ def build_thr(pid: str, inp, clauses) -> Case:
         else:
             common.call(getattr(s, pc[0]), pc[1])
     pre = []
-    ex = exact_case(inp)
+    ex = exact_case(inp) and not (routed and inp["route"].startswith("sample"))
     scale = max([abs(x) for x in pos + neg] + [1.0]) if not inp.get("big") else 1.0  # integer-valued scores: exact
     th = {}
     # one target array, kept by the caller and used for all three methods (the way a caller compares the methods, and the
@@ -297,19 +309,21 @@ def build_thr(pid: str, inp, clauses) -> Case:
     ca = cells(s.cm(ta))
     eps = Fraction(0) if ex else Fraction(1, 10**9)
     epst = Fraction(0) if ex else Fraction(1, 10**9) * Fraction(scale + 1)
-    ln = line("thr", pos=ql(pos), neg=ql(neg), ep=inp["ep"], en=inp["en"], sc=inp["sc"], ec=inp["ec"],
+    ln = line("thr", pos=ql(pos), neg=ql(neg), ep=ep_, en=en_, sc=sc_, ec=ec_,
               sorted=0, metric=metric, rs=ql(rs), eps=q(eps), epst=q(epst), tl=ql(tl), tlo=ql(tlo),
               thi=ql(thi), cl=il(cl), clo=il(clo), chi=il(chi), cb=il(cb), ca=il(ca))
     # second line: the theorem-derived bound between the float threshold and the exact model's (op `flbound`)
-    ln2 = line("flbound", pos=ql(pos), neg=ql(neg), ep=inp["ep"], en=inp["en"], sc=inp["sc"], ec=inp["ec"],
+    ln2 = line("flbound", pos=ql(pos), neg=ql(neg), ep=ep_, en=en_, sc=sc_, ec=ec_,
                sorted=0, metric=metric, rs=ql(rs), u=q(U53))
     fl_ok_inputs = fl_in_range(pos) and fl_in_range(neg)
     inp["_evals"] = 3 * len(rs)
     case = Case(pid, inp, [ln, ln2], None, (), 0, pre)
-    tags = [inp["stream"], f"cfg={inp['sc']},{inp['ec']}", f"metric={metric}",
+    tags = [inp["stream"], f"cfg={sc_},{ec_}", f"metric={metric}",
             "exact-arith" if ex else "float-arith"]
-    if inp["ep"] or inp["en"]:
+    if ep_ or en_:
         tags.append("easy")
+    if routed:
+        tags.append("route=" + inp["route"])
     if inp.get("intdt"):
         tags.append("int-dtype")
     if inp.get("f4dt"):
@@ -375,7 +389,7 @@ def build_thr(pid: str, inp, clauses) -> Case:
                     case.skipped += 1
                     continue
                 r = rs[k] if cl_ != "monotone" else rs
-                iss.append(Issue("PROPFAIL", cl_, f"{name} target={r} cfg=({inp['sc']},{inp['ec']}) ep={inp['ep']} en={inp['en']} "
+                iss.append(Issue("PROPFAIL", cl_, f"{name} target={r} cfg=({sc_},{ec_}) ep={ep_} en={en_}{' route=' + inp['route'] if routed else ''} "
                                  f"thr lin/lo/hi={tl[k] if cl_!='monotone' else tl}/{tlo[k] if cl_!='monotone' else ''}/{thi[k] if cl_!='monotone' else ''} "
                                  f"cm={cl[4*k:4*k+4] if cl_!='monotone' else ''}", f"thr/{metric}/{cl_}"))
         return iss
